@@ -276,6 +276,7 @@ type Event struct {
 }
 
 type Node struct {
+	stopped bool
 	Cfg       *Config
 	Ex        *consensus.Executer
 	Chain     *blockchain.Chain
@@ -375,6 +376,10 @@ func (n *Node) Close() {
 
 // StopExecuter stops consensus and networking but leaves the database open (restart on the same database).
 func (n *Node) StopExecuter() {
+	if n.stopped {
+		return
+	}
+	n.stopped = true
 	n.Ex.Stop() //nolint
 	if n.started {
 		n.Conn.Stop() //nolint
